@@ -315,7 +315,9 @@ func runC05(r *rt.Runner) {
 			if d1 != d2 {
 				c.Violation("section|state", fmt.Sprintf("state after the encrypted run differs from the plaintext run (%s) %s", lay.desc, firstDiff(d1, d2)), "")
 			}
-			c.Nontrivial(file.Bytes(), func() string { return fmt.Sprintf("%s; %d plaintext bytes; closes=%t; err=%v", lay.desc, len(plain), closes, err1) })
+			c.Nontrivial(file.Bytes(), func() string {
+				return fmt.Sprintf("%s; %d plaintext bytes; closes=%t; err=%v", lay.desc, len(plain), closes, err1)
+			})
 		})
 	}
 	r.Max("cipher (state,byte) pairs visited by one shard (of 16777216)", bm.count)
